@@ -89,7 +89,7 @@ class AntennaDriver:
         for k in range(n):
             key = (gen, t0 + st * k)
             if key in self.noise:
-                if abs(self.noise[key] - res[k]) > 1e-7:
+                if not (abs(self.noise[key] - res[k]) <= 1e-7):
                     if stale_ok:
                         self.known.append(('D9', where))
                         return
